@@ -32,7 +32,8 @@ def run(ctx):
         raise D.MachineryError('only %d events recorded from the repository test suite' % len(sres))
     D.summarize(ctx, res, 'arm')
     classes = sorted({l[2] for l in leaves})
-    ctx.exhaustive = True
+    ctx.exhaustive = False
+    ctx.extra['exhaustive_subspaces'] = ['class selection of the implementation: cube partition tiling all 2^32 words']
     ctx.extra.update({'arm_cubes': len(leaves), 'arm_classes': len(classes), 'arm_class_path_groups': ngroups,
                       'arm_space_tiled': '2^32 (sum of cube sizes checked)',
                       'groups_executed': len({k for w, c, k in words})})
